@@ -598,6 +598,10 @@ func (v *FnVC) encodeConvert(i *ssa.Convert) {
 				ln := v.freshConst("runelen", "Int")
 				v.asserts = append(v.asserts, fmt.Sprintf("(and (<= 0 %s) (<= %s (len_s %s)) (= (= %s 0) (= (len_s %s) 0)))", ln, ln, x.S, ln, x.S))
 				v.setVal(i, fmt.Sprintf("(mkSlice %s 0 %s %s)", r, ln, ln))
+				// its first element is the rune decoded at byte position 0
+				v.S.declFun("rune_at", "(Str Int) Int")
+				v.asserts = append(v.asserts, fmt.Sprintf("(=> (> (len_s %s) 0) (= (select (select %s %s) 0) (rune_at %s 0)))", x.S, nh, r, x.S))
+				v.asserts = append(v.asserts, fmt.Sprintf("(=> (and (> (len_s %s) 0) (< (at_s %s 0) 128)) (= (rune_at %s 0) (at_s %s 0)))", x.S, x.S, x.S, x.S))
 			}
 			// other arrays unchanged
 			v.asserts = append(v.asserts, fmt.Sprintf("(forall ((a Int)) (! (=> (not (= a %s)) (= (select %s a) (select %s a))) :pattern ((select %s a))))", r, nh, old, nh))
@@ -797,8 +801,11 @@ func (v *FnVC) encodeNext(i *ssa.Next) {
 		s := v.val(rng.X)
 		pos := v.heapGet(st, k)
 		ok := v.define("nextok", "Bool", fmt.Sprintf("(< %s (len_s %s))", pos, s.S))
-		w := v.freshConst("width", "Int")
-		r := v.freshConst("rune", "Int")
+		// decoding is a function of the string and the byte position: rune_at / rune_w (contract builtins runeAt, runeWidth)
+		v.S.declFun("rune_at", "(Str Int) Int")
+		v.S.declFun("rune_w", "(Str Int) Int")
+		w := v.define("width", "Int", fmt.Sprintf("(rune_w %s %s)", s.S, pos))
+		r := v.define("rune", "Int", fmt.Sprintf("(rune_at %s %s)", s.S, pos))
 		b0 := fmt.Sprintf("(at_s %s %s)", s.S, pos)
 		v.assume(v.reach[v.curBlock], fmt.Sprintf("(=> %s (and (<= 1 %s) (<= %s 4) (<= (+ %s %s) (len_s %s)) (=> (< %s 128) (and (= %s 1) (= %s %s))) (=> (>= %s 128) (and (>= %s 128) (<= %s 1114111))) (>= %s 0)))", ok, w, w, pos, w, s.S, b0, w, r, b0, b0, r, r, r))
 		// bytes covered by a multi-byte (or invalid) sequence are all >= 0x80
